@@ -14,6 +14,7 @@ HARNESS = {
     "h_sem": (["platform/linux/src/nsync_semaphore_futex.c", "platform/posix/src/time_rep.c"], [], []),
     "h_dll": (["internal/dll.c"], [], []),
     "h_mu": (NSYNC_CORE + ["platform/linux/src/nsync_semaphore_futex.c", "platform/posix/src/time_rep.c"], [], []),
+    "h_mub": (NSYNC_CORE + ["platform/posix/src/time_rep.c"], ["binsem.c"], [], "h_mu"),
     "h_l2": ([f for f in NSYNC_CORE if f not in ("internal/mu.c", "internal/mu_wait.c", "internal/cv.c", "internal/debug.c")]
              + ["platform/linux/src/nsync_semaphore_futex.c", "platform/posix/src/time_rep.c"], ["ideal_mu.c"], []),
     "h_l2r": (NSYNC_CORE + ["platform/linux/src/nsync_semaphore_futex.c", "platform/posix/src/time_rep.c"], [], [], "h_l2"),
